@@ -39,6 +39,9 @@ type DeclCfg struct {
 	PHiddenGrp   int
 	PHiddenCmd   int
 	PBase        int
+	PNamedRest   int // a []string rest positional is declared with the named type StrList
+	PPosLongTag  int // a positional field also carries a long: tag
+	PPosSplit    int // the positionals are declared in two positional-args structs
 	PNoUnquote   int
 	PInitial     int
 	PPlain       int
@@ -176,11 +179,15 @@ func (n *namer) genCmdBody(c *Cmd) {
 				t = cfg.PosTypes[r.Intn(len(cfg.PosTypes))]
 			}
 			a.T = TypeSpec{K: t.K}
-			if isIntKind(t.K) && r.Chance(cfg.PBase, 100) {
+			if t.W == WMap {
+				a.T = t // a map-typed positional binds one key:value token
+			}
+			if isIntKind(t.K) && t.W != WMap && r.Chance(cfg.PBase, 100) {
 				a.Base = []int{2, 8, 16, 36, BaseAuto}[r.Intn(5)]
 			}
-			if i == k-1 && rest {
+			if i == k-1 && rest && a.T.W != WMap {
 				a.T.W = WSlice
+				a.NamedSlice = a.T.K == KString && r.Chance(cfg.PNamedRest, 100)
 				if r.Chance(cfg.PPosReq, 100) {
 					lo := r.Range(0, 3)
 					if r.Bool() {
@@ -195,7 +202,13 @@ func (n *namer) genCmdBody(c *Cmd) {
 			if r.Chance(cfg.PDesc, 100) {
 				a.Desc = fmt.Sprintf("pd%03d positional text", id)
 			}
+			if r.Chance(cfg.PPosLongTag, 100) {
+				a.ExtraLong = fmt.Sprintf("pl%03d", id)
+			}
 			pd.Args = append(pd.Args, a)
+		}
+		if k >= 2 && r.Chance(cfg.PPosSplit, 100) {
+			pd.Split = r.Range(1, k-1)
 		}
 		c.Pos = pd
 	}
@@ -246,6 +259,7 @@ func (n *namer) genCmdBody(c *Cmd) {
 	if c.Pos != nil && len(c.Subs) > 0 && !c.SubOptional && r.Chance(9, 10) {
 		if a := c.Pos.Args[len(c.Pos.Args)-1]; a.IsRest() {
 			a.T.W = WScalar
+			a.NamedSlice = false
 			a.Req = ""
 		}
 	}
